@@ -6,7 +6,7 @@ TEXT_TRUSTED = [
     "Coq 8.16.1 kernel; vm_compute where a theorem says so (finite facts about generated regex ASTs / tables)",
     "axioms: none declared; Print Assumptions output is recorded per theorem in this evidence file",
     "generated units (regenerated from /repo on every run): gen/G_rx.v (all compiled patterns of ip_anonymization.py, sensitive_item_removal.py, default_pwd_regexes.py parsed by CPython's own re._parser; "
-    the format-detection function _check_sensitive_item_format is TRANSLATED as a function (tools/translate.py -> gen/G_fn_sir.v, its literal patterns parsed the same way) and called by the model), gen/G_text_consts.v (scrub message, enclosing texts, reserved words, word length), gen/G_juniper.v, gen/G_as_num.v, gen/G_ip_consts.v",
+    "the format-detection function _check_sensitive_item_format is TRANSLATED as a function (tools/translate.py -> gen/G_fn_sir.v, its literal patterns parsed the same way) and called by the model), gen/G_text_consts.v (scrub message, enclosing texts, reserved words, word length), gen/G_juniper.v, gen/G_as_num.v, gen/G_ip_consts.v",
     "tools/rxgen.py + re._parser (translator for regexes): trusted as far as the correspondence run exercises it",
     "hand-written model model/TextModel.v of the per-line pipeline and lib/Rx*.v (regex engine), lib/IpText.v (ipaddress text), lib/Str.v (str primitives): tied to /repo by this check's correspondence run through FileAnonymizer.anonymize_io",
     "passlib md5_crypt / sha512_crypt are oracles (answers supplied with each case); cisco_type7 is re-implemented in the model",
